@@ -34,6 +34,8 @@ import (
 //   e2e        clients – proxy – goat.NewDemux keyed by source – one Serve per client, the C01–C04
 //              workloads with at most 12 envelopes outstanding per destination; monitors: pairing,
 //              checkStream, status, metadata, no drop event, proxyDelivery on the pipes' wire taps.
+//   foreign    a scripted foreign client behind the proxy: requests the server answers by itself (malformed
+//              metadata, unknown stream) get the same answer through the proxy as on a direct connection.
 //   relayburst a 40-message server stream towards a client that does not read: drops are counted by
 //              the hook events; loss explained by them is the known finding, any other loss a violation.
 
@@ -51,6 +53,9 @@ func runC16(r *Run) {
 	}
 	if r.Want("relayburst") {
 		c16RelayBurst(r)
+	}
+	if r.Want("foreign") {
+		c16Foreign(r)
 	}
 }
 
